@@ -11,6 +11,7 @@ from cobald.daemon.core.config import load
 from engines.plugin_scratch import scratch_dir, write_module
 from props.c05 import ensure as ensure_tags
 from vlib.core import HarnessError, Result, TestDef
+from vlib.fuzz import fuzz_testdef
 from vlib.yamlemit import emit_document, value_nodes
 
 ID = "C18"
@@ -243,4 +244,9 @@ def run_case(doc) -> Result:
 
 
 def tests(tier):
-    return [TestDef("documents", run_case, strategy=document(), quick=5000, thorough=150000)]
+    t = [TestDef("documents", run_case, strategy=document(), quick=5000, thorough=150000)]
+    if tier == "thorough":
+        from engines.fuzz_targets import C18_CORPUS, C18_DICT
+
+        t.append(fuzz_testdef("c18", 60000, dictionary=C18_DICT, corpus=C18_CORPUS, max_len=1024, nontrivial_token=b"!"))
+    return t
